@@ -1,8 +1,9 @@
 import RichModel.Lemmas.LayoutTableWidths
 /-!
 **The table never overflows** (segment level): `tableConsole` is title ++ body ++ caption where the body is a
-sequence of complete lines none wider than the available width.  Built on `C07.width_fits` (the widths),
-`C07.table_rect` / `renderBody_good` (the rectangle) and `setShape_rect` (the shaped cells).
+sequence of complete lines none wider than the available width.  Built on `width_fits_ratio` (the widths: `Dep.width_fits`
+extended to ratio columns, `Lemmas/LayoutTableRatio.lean`),
+`Dep.table_rect` / `renderBody_good` (the rectangle) and `setShape_rect` (the shaped cells).
 -/
 namespace RichModel.Layout
 open RichModel RichModel.Frames
@@ -28,16 +29,16 @@ theorem tb_sum_toNat : ∀ (ws : List Int), (∀ x ∈ ws, 0 ≤ x) → ((ws.map
     omega
 
 /-- The body of a table whose widths are known: complete lines, none wider than the rectangle. -/
-theorem tb_body_ok (cfg : Cfg) (hcw : cfg.cw = C07.cw) (hfl : cfg.fl.leadingRepeat = false)
+theorem tb_body_ok (cfg : Cfg) (hcw : cfg.cw = cwD) (hfl : cfg.fl.leadingRepeat = false)
     (o : TableOpts) (cols : List ColS) (widths : List Nat) (hwl : widths.length = cols.length) :
     let rendered := tb_rendered cfg o cols widths
     let tbR := tb_tbR o cols rendered
     let body := (tbR.renderBody cfg.fl cfg.cw widths).flatMap (bodyLineSegs (tb_shaped cfg.cw widths rendered))
     (∀ l ∈ splitLines body, lineLength cfg.cw l ≤ tbR.bodyWidth widths) ∧ Closed body := by
   intro rendered tbR body
-  have hsp : cfg.cw ' ' = 1 := by rw [hcw]; exact C07.charWidth_space
-  have h2 : ∀ c, cfg.cw c ≤ 2 := by rw [hcw]; exact C07.charWidth_le_two
-  have hnl : cfg.cw '\n' = 0 := by rw [hcw]; decide +kernel
+  have hsp : cfg.cw ' ' = 1 := by rw [hcw]; exact cwD_space
+  have h2 : ∀ c, cfg.cw c ≤ 2 := by rw [hcw]; exact cwD_le_two
+  have hnl : cfg.cw '\n' = 0 := by rw [hcw]; exact cwD_nl
   have hrl : rendered.length = cols.length := tb_rendered_length cfg o cols widths hwl
   have hRl : tbR.columns.length = cols.length := tb_tbR_columns_length o cols rendered hrl
   have hwfR : ∀ b, tbR.box = some b → b.wf cfg.cw := fun b hb => tb_boxOf_wf cfg.cw hcw o b hb
@@ -66,13 +67,14 @@ theorem tb_body_ok (cfg : Cfg) (hcw : cfg.cw = C07.cw) (hfl : cfg.fl.leadingRepe
   · exact tb_closed_flatMap _ (fun l => (bodyLineSegs (tb_shaped cfg.cw widths rendered) l).dropLast) _
       (fun a ha => (hline a ha).1)
 
-/-- **Table.**  Columns free to wrap, cells whose measured maximum is never negative, room for the borders and one cell per
+/-- **Table.**  Columns free to wrap (no `width`, `min_width`, `no_wrap`; ratio columns allowed, but no `ratio=0` column in a
+table that expands), cells whose measured maximum is never negative, room for the borders and one cell per
 column (and, with an explicit `Table(width=tw)`, `tw` itself within the available width): the table is the title, a body and
 the caption, the body is a sequence of complete lines none wider than the available width. -/
-theorem tableConsole_decomp (cfg : Cfg) (hcw : cfg.cw = C07.cw) (hfl : cfg.fl.leadingRepeat = false)
+theorem tableConsole_decomp (cfg : Cfg) (hcw : cfg.cw = cwD) (hfl : cfg.fl.leadingRepeat = false)
     (o : TableOpts) (opts : Opts) (cols : List ColS) (w : Nat)
     (hne : cols ≠ [])
-    (hfree : ∀ c ∈ cols, c.o.free (o.expand || o.width.isSome))
+    (hfree : ∀ c ∈ cols, c.o.wrappable ∧ ((o.expand || o.width.isSome) = false ∨ c.o.ratio ≠ some 0))
     (hmeas : ∀ c ∈ cols, ∀ ch ∈ c.header :: c.footer :: c.cells, ∀ k : Nat, 0 ≤ (ch.measure k).maximum)
     (hw : tableExtra o cols.length + cols.length ≤ w)
     (hwidth : ∀ tw, o.width = some tw → tw ≤ w ∧ tableExtra o cols.length + cols.length ≤ tw) :
@@ -87,9 +89,9 @@ theorem tableConsole_decomp (cfg : Cfg) (hcw : cfg.cw = C07.cw) (hfl : cfg.fl.le
   have hlenT := tb_toTable_columns_length cfg o cols
   have hneT : (toTable cfg o cols).columns ≠ [] := by
     intro h; rw [h] at hlenT; simp at hlenT; omega
-  have hfreeT := tb_toTable_allFree cfg o cols (fun c hc => ⟨(hfree c hc).1, (hfree c hc).2.1⟩) hmeas
-  have hnrT := tb_toTable_noRatio cfg o cols hfree
-  have hnwT := tb_toTable_noWrap cfg o cols (fun c hc => (hfree c hc).2.2.1)
+  have hfreeT := tb_toTable_allFree cfg o cols (fun c hc => ⟨(hfree c hc).1.1, (hfree c hc).1.2.1⟩) hmeas
+  have hrT := tb_toTable_ratiosPos cfg o cols (fun c hc => (hfree c hc).2)
+  have hnwT := tb_toTable_noWrap cfg o cols (fun c hc => (hfree c hc).1.2.2)
   obtain ⟨hex0, hexle⟩ := tb_extraWidth_skel o (toTable cfg o cols).columns cols.length hlenT hn1
   have hexT : ({ o.skel with columns := (toTable cfg o cols).columns } : Table).extraWidth = (toTable cfg o cols).extraWidth := rfl
   rw [hexT] at hex0 hexle
@@ -103,8 +105,9 @@ theorem tableConsole_decomp (cfg : Cfg) (hcw : cfg.cw = C07.cw) (hfl : cfg.fl.le
       obtain ⟨h1, h2⟩ := hwidth tw hw'
       simp only [Option.map_some, Option.getD_some, Int.ofNat_eq_natCast]
       omega
-  obtain ⟨ws, hws, hsum, hlen, hpos⟩ := C07.width_fits cfg.fl (toTable cfg o cols)
-    ((toTable cfg o cols).width.getD (w : Int) - (toTable cfg o cols).extraWidth) hnrT hfreeT hneT hnwT
+  obtain ⟨ws, hws, hsum, hlen, hpos⟩ := width_fits_ratio cfg.fl (toTable cfg o cols)
+    ((toTable cfg o cols).width.getD (w : Int) - (toTable cfg o cols).extraWidth) hrT hfreeT
+    (tb_paddingWidth_nonneg cfg o cols) hneT hnwT
     (by rw [hlenT]; omega)
   have hwl : (ws.map Int.toNat).length = cols.length := by rw [List.length_map, hlen, hlenT]
   obtain ⟨hfit, hclosed⟩ := tb_body_ok cfg hcw hfl o cols (ws.map Int.toNat) hwl
@@ -115,7 +118,7 @@ theorem tableConsole_decomp (cfg : Cfg) (hcw : cfg.cw = C07.cw) (hfl : cfg.fl.le
   have hRl := tb_tbR_columns_length o cols (tb_rendered cfg o cols (ws.map Int.toNat)) hrl
   have hneR : (tb_tbR o cols (tb_rendered cfg o cols (ws.map Int.toNat))).columns ≠ [] := by
     intro h; rw [h] at hRl; simp at hRl; omega
-  have hbw := C07.bodyWidth_eq (tb_tbR o cols (tb_rendered cfg o cols (ws.map Int.toNat))) (ws.map Int.toNat)
+  have hbw := Dep.bodyWidth_eq (tb_tbR o cols (tb_rendered cfg o cols (ws.map Int.toNat))) (ws.map Int.toNat)
     (hwl.trans hRl.symm) hneR
   have hexR : (tb_tbR o cols (tb_rendered cfg o cols (ws.map Int.toNat))).extraWidth = (toTable cfg o cols).extraWidth := by
     unfold Table.extraWidth
